@@ -180,6 +180,16 @@ SYNTHETIC = [
     ('identity-allyl', '[C:1]=[C:2]-[C,O:3]', '[A:3]-[A:2]=[A:1]', {}),
     ('identity-branch', '[C:1](-[C,O,N:2])-[C:3]', '[A:3]-[A:1]-[A:2]', {}),
     ('identity-vinyl', '[C:1](-[C:2])=[C:3]', '[A:2]-[A:1]=[A:3]', {}),
+    # stereo marks in the replacement on atoms whose replacement neighbours are written in ring-closing / branching orders:
+    # the mark is relative to the replacement atom's adjacency order, which the product must reproduce
+    ('override-ring', '[O:1]1[C:2][C:3]1[N:4]', '[A:1]1[A:2][A;@:3]1[A:4]', {}),
+    ('override-ring-branch', '[O:1]1[C:2][C:3]1[N:4]', '[A:1]1[A:2][A;@@:3]([A:4])1', {}),
+    ('override-ring-mol', '[O:1]1[C:2][C:3]1[N:4]', 'mol:[O:1]1[CH2:2][C@H:3]1[NH2:4]', {}),
+    ('override-carbocycle', '[C:1]1[C:2][C:3]1[O;D1:4]', '[A:1]1[A:2][A;@:3]1[A:4]', {}),
+    ('override-ring4', '[C:1]1[C:2][C:3][C:4]1[N,O;D1:5]', '[A:1]1[A:2][A:3][A;@:4]1[A:5]', {}),
+    ('override-acyclic-full', '[C:1]([O;D1:2])([N;D1:3])[C;D1:4]', '[A;@:1]([A:2])([A:3])[A:4]', {}),
+    ('override-acyclic-late', '[C;D1:4][C:1]([O;D1:2])[N;D1:3]', '[A:4][A;@@:1]([A:2])[A:3]', {}),
+    ('identity-ring-stereo', '[O:1]1[C:2][C;@:3]1[N:4]', '[A:1]1[A:2][A;@:3]1[A:4]', {}),
     ('retype-O-to-S', '[C:1][O;D1:2]', '[C:1][S:2]', {}),
     ('retype-N-to-Nplus', '[C:1][N;D1:2]', '[C:1][N+:2]', {}),
     ('isotope', '[C;D1:1][C:2]', '[13C:1][A:2]', {}),
@@ -900,6 +910,10 @@ def _reactor_clauses(patterns, products, kw, mols, rng, builtin=False, limit=20)
     return bad
 
 
+def template_marks(r):
+    return any(getattr(a, 'stereo', None) is not None for _, a in r.atoms())
+
+
 def has_stereo(mol):
     return any(a._stereo is not None for a in mol._atoms.values()) or any(b._stereo is not None for _, _, b in mol.bonds())
 
@@ -940,6 +954,35 @@ def _stereo_clauses(q, r, mol, kw, fix_rings, limit):
         overridden = {mp[n] for n in over_atoms if n in mp}
         same_graph = canon_mol_text(render_mol(p)) == base_text
         tp, ap, cp = p.stereogenic_tetrahedrons, p.stereogenic_allenes, p.stereogenic_cis_trans
+        # stereo override, absolute: a mark on a replacement atom is a sign relative to THAT atom's neighbour order in the
+        # replacement (query: `_bonds[n]` order, the convention the matcher uses for query marks; molecule: its own
+        # sign translation). When all neighbours of the product centre are the images of the replacement neighbours, the
+        # product read in the mapped order must carry exactly that sign.
+        if over_atoms:
+            named, nxt = {}, max(mol._atoms)
+            for n in r:
+                if n in mp:
+                    named[n] = mp[n]
+                else:
+                    nxt += 1
+                    named[n] = nxt
+            for n in over_atoms:
+                c = named[n]
+                renv = list(r._bonds[n])
+                if c not in p._atoms or c not in tp or len(renv) < 3 or set(p._bonds[c]) != {named[x] for x in renv}:
+                    continue
+                if p._atoms[c].stereo is None:
+                    continue
+                if hasattr(r, 'stereogenic_tetrahedrons'):      # molecule as replacement
+                    if n not in r.stereogenic_tetrahedrons:
+                        continue
+                    want = r._translate_tetrahedron_sign(n, renv)
+                else:
+                    want = r._atoms[n].stereo
+                got = p._translate_tetrahedron_sign(c, [named[x] for x in renv])
+                if want != got:
+                    bad.append(('stereo-override', f'match {mp}: replacement atom {n} carries a stereo mark; read in the replacement\'s '
+                                                   f'neighbour order {renv} the product centre {c} has the opposite configuration'))
         for n, env in tm.items():
             if mol._atoms[n].stereo is None or n in overridden or n not in p._atoms:
                 continue
@@ -1424,6 +1467,8 @@ EXTRA_MOLS = ['CCCCC', 'CC(C)CCC', 'CCCCO', 'OCCCC', 'COC', 'CCOCC', 'CN(C)C', '
               # chiral inputs: centres / double bonds / allenes that templates name, sit next to, or leave alone
               'C[C@H](OC)CBr', 'C[C@@H](OC)CBr', 'C[C@@H](O)CC', 'C[C@H](N)C(=O)O', 'C[C@](O)(CC)C(C)C', 'O[C@H]1CCCC[C@@H]1C',
               'C/C=C/CO', 'C/C=C\\CO', 'OC/C=C/C(C)O', 'CC=[C@]=CCO', 'CC=[C@@]=CCO', 'C[C@H](Cl)/C=C/C', 'Br[C@H](C)CCBr',
+              'O1C[C@H]1N', 'O1C[C@@H]1N', 'NC1CO1', 'CC1(N)CO1', 'OC1CC1C', 'C[C@H]1C[C@@H]1O', 'OC1CCC1', 'N[C@H]1CC[C@@H]1C',
+              'CC(N)O', 'C[C@H](N)O', 'C[C@@H](N)O',
               'CC(CO)=[C@]=CC', 'CC(CO)=[C@@]=C(C)CC', 'C/C(CO)=C/C', 'CC/C(C)=C(/C)CO', 'C/C(CO)=C(\\C)CC',
               'BrCCc1cnc[nH]1', 'BrCCc1c[nH]cn1', 'Cc1cc[nH]n1', 'OCc1nnn[nH]1', 'BrCCc1ccncc1',
               # condensed pyrrole tautomers: thiele(fix_tautomers=True) moves the hydrogen, fix_tautomers=False does not
@@ -1491,7 +1536,7 @@ def correspond(ctx):
                         ctx.dist('switches-checked')
                         for cl, det in switch_clauses(q, r, vm, kw, limit=3 if ctx.quick else 5):
                             ctx.fail(f'C16/{cl}', f'{name} on {vtag}: {det}', replay_input(name, q, r, kw, vm))
-                    if has_stereo(vm):
+                    if has_stereo(vm) or template_marks(r):
                         ctx.dist('stereo-checked')
                         for fr in ((True,) if ctx.quick else (True, False)):
                             for cl, det in stereo_clauses(q, r, vm, kw, fix_rings=fr, limit=4 if ctx.quick else 12):
@@ -1674,7 +1719,7 @@ def transform_failures(inp, numbering=True):
     bad = clauses(q, r, mol, kw, fix_rings=bool(inp.get('fix_rings')), limit=50, builtin=builtin)
     if not inp.get('fix_rings'):
         bad += clauses(q, r, mol, kw, fix_rings=True, limit=50, builtin=builtin)
-    if has_stereo(mol):
+    if has_stereo(mol) or template_marks(r):
         for fr in (True, False):
             bad += stereo_clauses(q, r, mol, kw, fix_rings=fr, limit=50)
     bad += switch_clauses(q, r, mol, kw, limit=12)
@@ -1709,6 +1754,10 @@ def _numbering_clauses(q, r, mol, kw=None, rng=None, rounds=2):
     from chython import Transformer
     rng = rng or random.Random(0)
     kw = dict(kw or {})
+    if template_marks(q):
+        # molgen.renumber carries stereo signs over without translating them to the new neighbour order (it may hand back the
+        # enantiomer); a pattern that matches by configuration cannot be compared across such renumberings
+        return []
     # aromaticity repair is switched off here: where kekule()/thiele(fix_tautomers) put the hydrogen of an under-specified
     # aromatic ring (e.g. an imidazole N that lost its substituent) is a heuristic choice that belongs to C05, not to the
     # template machinery; the products are compared as the patcher leaves them
